@@ -231,13 +231,23 @@ func runC18(c *fw.Ctx) {
 		}
 	}
 	// numerals of 1..60 digits in every numeric position (literal conversions run inside CheckSource)
+	lengths := []int{100, 255, 256, 999, 1000, 1001, 1002, 1500, 5000, 20000}
 	for d := 1; d <= 60; d++ {
+		lengths = append(lengths, d)
+	}
+	for _, d := range lengths {
 		id := "numeral/" + itoa(d)
 		if !c.Want(2_000_000+d, id) {
 			continue
 		}
 		r := c.Rng(id)
-		for k := 0; k < 4; k++ {
+		reps := 4
+		probeStride = 1
+		if d > 60 {
+			// a single very long token: every k-th position is probed
+			reps, probeStride = 1, 1+d/40
+		}
+		for k := 0; k < reps; k++ {
 			digits := make([]byte, d)
 			for i := range digits {
 				digits[i] = byte('0' + r.Intn(10))
@@ -260,6 +270,7 @@ func runC18(c *fw.Ctx) {
 				}
 			}
 		}
+		probeStride = 1
 	}
 	// calls of the built-in functions with 0..5 arguments, each a value, a hole or a stray token
 	{
